@@ -243,6 +243,10 @@ def replay(case, kind=None):
 		return [v for v in t_long(int(os.environ.get('VERIF_SEED') or 0)).violations if v['case'] == case]
 	if 'kmer' in case or 'seq' in case:
 		_check_kmer(sh, case.get('kmer', case.get('seq')), None)
+	elif kind == 'index_dtype':
+		import gambit.kmers as gk
+		if str(gk.index_dtype(case['k'])) != R.ref_dtype(case['k']):
+			sh.violation(kind, case, R.ref_dtype(case['k']), str(gk.index_dtype(case['k'])))
 	elif 'index' in case:
 		km = ck.index_to_kmer(case['index'], case['k'])
 		if km != R.ref_kmer(case['index'], case['k']):
